@@ -22,6 +22,10 @@ def main():
     ntag = ctx.q(40, 400)
     for tagn, cnt in (('C01-tagged-pool', ntag // 2), ('C01-tagged-fresh-%d' % ctx.seed, ntag - ntag // 2)):
         for sd, g, text, out, cls, d in gen.programs(tagn, cnt, extra=('taggedunion', 'unions')): progs.append(('tagged:' + sd, g, text, out, cls))
+    for fam, extra in (('fluid', ('fluids',)), ('counter', ('counters', 'closures'))):
+        nf = ctx.q(16, 200)
+        for tagn, cnt in (('C01-%s-pool' % fam, nf // 2), ('C01-%s-fresh-%d' % (fam, ctx.seed), nf - nf // 2)):
+            for sd, g, text, out, cls, d in gen.programs(tagn, cnt, extra=extra): progs.append((fam + ':' + sd, g, text, out, cls))
     ctx.log('%d programs (%d discarded by the discipline)' % (len(progs), disc))
     base = ctx.tmp('w')
     LEVELS = ['-Q1', '-Q0'] if ctx.tier == 'quick' else ['-Q1', '-Q0', '-Q3']
